@@ -13,7 +13,7 @@ use sos_core::crypto::{
     AccessKey, AeadPack, Cipher, DerivedPrivateKey, KeyDerivation, Nonce,
     PrivateKey, Seed,
 };
-use sos_vault::{AccessPoint, BuilderCredentials, SecretAccess, Vault, VaultBuilder};
+use sos_vault::{AccessPoint, BuilderCredentials, SecretAccess, VaultBuilder};
 
 pub const META: PropertyMeta = PropertyMeta {
     id: "C10",
